@@ -1725,8 +1725,11 @@ func sortedMapKeys(rv reflect.Value) []reflect.Value {
 // mapKeyOrder is what map keys are ordered by: their string form, then their type, so that
 // keys of different types that print alike (1 and "1" in a map[interface{}]...) have a
 // fixed order too.
+// The string form is terminated in a way that keeps its own order intact (a NUL inside it is
+// escaped, so that "a" still comes before "a\x00" as it does for sort.Strings, which the
+// filters use on map[string]interface{}).
 func mapKeyOrder(key interface{}) string {
-	return toString(key) + "\x00" + fmt.Sprintf("%T", key)
+	return strings.ReplaceAll(toString(key), "\x00", "\x00\x01") + "\x00\x00" + fmt.Sprintf("%T", key)
 }
 
 func (e *CoreExtension) filterKeys(value interface{}, args ...interface{}) (interface{}, error) {
